@@ -1,6 +1,56 @@
 /-
-  Property C19 — property theorems only (helper lemmas live next to the model).
-  Stub: nothing claimed yet.
+  Property C19 — counters / thread-locals: aggregates exact across thread and instance churn.
+  Property theorems only; the model is Babylon/Counter/Model.lean, lemmas in Babylon/Counter/Lemmas*.lean.
 -/
+import Babylon.Counter.Model
+import Babylon.Counter.Pinned
+
 namespace Babylon.Properties.C19
+open Babylon.Counter Babylon.Gen.Counter
+
+/-! ## Generated obligations: the source is the one the model was written against -/
+
+/-- constants the model and the harness depend on -/
+theorem gen_constants :
+    cacheLine = 128 ∧ numAdder = 1024 ∧ numSummer = 512 ∧ numMaxer = 512 ∧ numMiner = 512 ∧ numCetl = 16 ∧
+    storageBlock = 128 ∧ storageVecBlock = 128 ∧ nextIdInit = 1 ∧ nextIdStep = 1 ∧ cacheIdInit = 0 ∧
+    slotVersionInit = 2 ^ 64 - 1 ∧ extremumMax = -(2 ^ 63) ∧ extremumMin = 2 ^ 63 - 1 ∧ adderLeaky = 1 := by decide
+
+/-- behaviour flags: `for_each` narrows the size to `uint16_t`; both `for_each_alive` overloads clip
+(repair aff20d8); the comparer accepts its first matching sample unconditionally (repair f87c6ba); the
+destructor zeroes its offset in every line before it releases the instance id -/
+theorem gen_flags :
+    forEachU16Cast = true ∧ feaClipped = true ∧ feaConstClipped = true ∧ cmpFirstGuard = true ∧
+    dtorZeroesFirst = true := by decide
+
+/-- the never-reused instance key is distinct from the initial cache key: an empty cache never hits -/
+theorem gen_cache_init_never_hits : cacheIdInit < nextIdInit := by decide
+
+theorem gen_src_etl_for_each : src_etl_for_each = Pinned.etl_for_each := rfl
+theorem gen_src_etl_for_each_alive : src_etl_for_each_alive = Pinned.etl_for_each_alive := rfl
+theorem gen_src_etl_for_each_alive_const : src_etl_for_each_alive_const = Pinned.etl_for_each_alive_const := rfl
+theorem gen_src_compact_for_each : src_compact_for_each = Pinned.compact_for_each := rfl
+theorem gen_src_compact_for_each_alive : src_compact_for_each_alive = Pinned.compact_for_each_alive := rfl
+theorem gen_src_etl_local : src_etl_local = Pinned.etl_local := rfl
+theorem gen_src_etl_local_fast : src_etl_local_fast = Pinned.etl_local_fast := rfl
+theorem gen_src_etl_move_assign : src_etl_move_assign = Pinned.etl_move_assign := rfl
+theorem gen_src_compact_move_assign : src_compact_move_assign = Pinned.compact_move_assign := rfl
+theorem gen_src_compact_ctor : src_compact_ctor = Pinned.compact_ctor := rfl
+theorem gen_src_compact_move_ctor : src_compact_move_ctor = Pinned.compact_move_ctor := rfl
+theorem gen_src_compact_dtor : src_compact_dtor = Pinned.compact_dtor := rfl
+theorem gen_src_compact_local : src_compact_local = Pinned.compact_local := rfl
+theorem gen_src_adder_value : src_adder_value = Pinned.adder_value := rfl
+theorem gen_src_adder_reset : src_adder_reset = Pinned.adder_reset := rfl
+theorem gen_src_adder_count : src_adder_count = Pinned.adder_count := rfl
+theorem gen_src_cmp_put : src_cmp_put = Pinned.cmp_put := rfl
+theorem gen_src_cmp_value : src_cmp_value = Pinned.cmp_value := rfl
+theorem gen_src_cmp_value0 : src_cmp_value0 = Pinned.cmp_value0 := rfl
+theorem gen_src_cmp_reset : src_cmp_reset = Pinned.cmp_reset := rfl
+theorem gen_src_cmp_slot : src_cmp_slot = Pinned.cmp_slot := rfl
+theorem gen_src_cmp_extremum : src_cmp_extremum = Pinned.cmp_extremum := rfl
+theorem gen_src_cmp_comparers : src_cmp_comparers = Pinned.cmp_comparers := rfl
+theorem gen_src_summer_put1 : src_summer_put1 = Pinned.summer_put1 := rfl
+theorem gen_src_summer_put : src_summer_put = Pinned.summer_put := rfl
+theorem gen_src_summer_value : src_summer_value = Pinned.summer_value := rfl
+
 end Babylon.Properties.C19
